@@ -70,6 +70,9 @@ func (s *State) clone() *State {
 // heap returns the current term of a named heap, creating its initial symbol lazily. The
 // initial symbol is the same in every state (it denotes the heap at function entry).
 func (c *Ctx) heap(s *State, name string, sort Sort) *Term {
+	if c.heapRec != nil {
+		c.heapRec[name] = sort
+	}
 	if t, ok := s.heaps[name]; ok {
 		return t
 	}
@@ -147,6 +150,10 @@ func (c *Ctx) newRef(s *State, hint string) *Term {
 	c.assume(s.pc, bvcmp("bvugt", a, BVInt(0, 64)))
 	na := c.define("alloc", bvbin("bvadd", a, BVInt(1, 64)))
 	s.heaps[allocName] = na
+	if s.wlog != nil {
+		// seen by an enclosing loop: the allocation counter is havocked (monotonically) at the loop head
+		*s.wlog = append(*s.wlog, WriteRec{allocName, nil, s.pc})
+	}
 	return r
 }
 
